@@ -666,14 +666,23 @@ func genConnectExchange(g *Gen, tag string, prop string) *Plan {
 	return p
 }
 
+// preConnectKA: keep-alives of a second or two as well: whatever the gateway does "every half keep-alive"
+// then happens between the packets of the sequence
+func preConnectKA(g *Gen) uint16 {
+	if g.Bool(0.35) {
+		return uint16(g.Range(1, 2))
+	}
+	return uint16(g.Range(5, 60))
+}
+
 // preConnectTypes: what a raw peer may send before any successful connect (C07).
 func preConnectPkt(g *Gen, k int) refsn.Pkt {
 	mid := uint16(g.Range(1, 9))
 	switch k {
 	case 0:
-		return connectPkt("c1", uint16(g.Range(5, 60)), false, true)
+		return connectPkt("c1", preConnectKA(g), false, true)
 	case 1:
-		return connectPkt("c1", uint16(g.Range(5, 60)), true, true)
+		return connectPkt("c1", preConnectKA(g), true, true)
 	case 2:
 		return authPkt(g, 0)
 	case 3:
@@ -744,7 +753,7 @@ func genC07(g *Gen, idx int) *Plan {
 		p.Family = "C07-open-exchange"
 		will := g.Bool(0.4)
 		sg.gap(50, 500)
-		sg.add(connectPkt("c1", uint16(g.Range(5, 60)), will, true))
+		sg.add(connectPkt("c1", preConnectKA(g), will, true))
 		if cfg.Auth && g.Bool(0.85) {
 			sg.gap(20, 300)
 			sg.add(authPkt(g, 0))
@@ -847,7 +856,7 @@ func enumC07(tier string, idx int) *Plan {
 func init() {
 	Register(&Check{ID: "C07", Level: "fault_enumeration",
 		Rule:   "every sequence of up to 3 pre-connect client packets over a 14-symbol alphabet (CONNECT +-will, AUTH, WILLTOPIC, WILLMSG, DISCONNECT +-duration, PINGREQ, REGISTER, PUBLISH QoS -1/0-2, SUBSCRIBE, PUBREL, REGACK) x auth on/off (quick: a 600-sequence spread of the 5,908; thorough: all), followed by random longer sequences over 27 packet kinds (a fifth of them with a slow or CONNECT-silent broker) and, every fourth, a connect exchange complete up to the broker's CONNACK (slow/silent broker) followed by packets legal only in an accepted session; a probe PUBLISH closes each sequence; non-trivial = >= 2 packets consumed before any accepted connect",
-		Enum:   enumC07, Gen: genC07, Oracle: oracleC07, Quick: 900, Thorough: 40000})
+		Enum:   enumC07, Gen: genC07, Oracle: oracleC07, Quick: 3000, Thorough: 120000})
 	Register(&Check{ID: "C08", Level: "exploration",
 		Rule:   "random connect exchanges: CONNECT (+-will, keep-alive incl. 0) followed by 0-4 of AUTH (PLAIN well-formed / malformed / other method / empty method), WILLTOPIC, WILLMSG in any order, repeated exchanges, gateway credentials {none,user,user+password,password only}, auth on/off, broker CONNACK codes 0-5, the broker's answer delayed by 0.3-3 s in 30 % and datagram duplication in 25 % of the runs; non-trivial = exchange with at least one follow-up packet or an MQTT CONNECT",
 		Gen:    func(g *Gen, idx int) *Plan { return genConnectExchange(g, "C08-exchange", "C08") }, Oracle: oracleC08, Quick: 2000, Thorough: 160000})
